@@ -71,7 +71,7 @@ impl Property for C18 {
          oracle = the generated instance itself: polynomials by id, equality kinds, id sets, value domains of the variables that occur with non-zero coefficient; non-trivial = >=1 integer or binary variable and >=1 variable without a finite lower bound; distinct = sha256(instance)"
     }
     fn required_labels(&self) -> Vec<String> {
-        ["bound-absent", "binary-no-bound", "neg-bound", "constant-only-constraint", "maximize", "nonlinear-objective", "nonlinear-constraint", "noncontiguous-ids", "removed-constraint", "half-infinite", "unused-variable", "integer-variable", "unsorted-terms", "huge-finite-bound", "sweep=big-dense"].iter().map(|s| s.to_string()).collect()
+        ["bound-absent", "binary-no-bound", "neg-bound", "constant-only-constraint", "maximize", "nonlinear-objective", "nonlinear-constraint", "noncontiguous-ids", "removed-constraint", "half-infinite", "unused-variable", "integer-variable", "unsorted-terms", "huge-finite-bound", "sweep=big-dense", "multi-line-description"].iter().map(|s| s.to_string()).collect()
     }
     fn cases(&self, tier: Tier) -> usize {
         match tier {
@@ -174,6 +174,25 @@ impl Property for C18 {
             }
             if unsorted {
                 ctx.label("unsorted-terms");
+            }
+        }
+        // free-text metadata (not preserved by the format, but it must not disturb the file either)
+        if huge == 0 && shuffle_seed[0] % 4 == 0 {
+            let mut d = v1::instance::Description::default();
+            d.name = Some(["knapsack", "two words", "NAME", "ROWS"][shuffle_seed[1] as usize % 4].to_string());
+            d.description = Some(["one line", "first line\nsecond line", "* starts like a comment\nENDATA", "ends with a newline\n", ""][shuffle_seed[2] as usize % 5].to_string());
+            d.authors = vec!["A B".into()];
+            if d.description.as_deref().map(|x| x.contains('\n')).unwrap_or(false) {
+                ctx.label("multi-line-description");
+            }
+            inst.description = Some(d);
+            for v in inst.decision_variables.iter_mut().take(2) {
+                v.name = Some("x y\tz".into());
+                v.description = Some("RHS\nBOUNDS".into());
+            }
+            for c in inst.constraints.iter_mut().take(1) {
+                c.name = Some("N OBJ".into());
+                c.description = Some("a\nb".into());
             }
         }
         // a finite bound of very large magnitude is still a finite bound
